@@ -193,8 +193,10 @@ func parent(p *props.Prop, tier string, seed int64, replay string) int {
 		"wall_s":   time.Since(start).Seconds(), "violations": map[bool]int{true: 1, false: 0}[exit == core.ExitViolation],
 	}
 	eb, _ := json.MarshalIndent(ev, "", " ")
-	_ = os.MkdirAll(filepath.Join(core.Root, "evidence"), 0o755)
-	_ = os.WriteFile(filepath.Join(core.Root, "evidence", p.ID+".json"), eb, 0o644)
+	if os.Getenv("VERIF_NO_EVIDENCE") == "" {
+		_ = os.MkdirAll(filepath.Join(core.Root, "evidence"), 0o755)
+		_ = os.WriteFile(filepath.Join(core.Root, "evidence", p.ID+".json"), eb, 0o644)
+	}
 	return exit
 }
 
